@@ -275,6 +275,20 @@ func TestVerifC04(t *testing.T) {
 					}
 				}
 			}
+			// a number that differs from an available one by a multiple of 2^32 is another segment (centuries away)
+			for _, rp := range []string{"V300/%d.m4s", "A48/%d.m4s", "imsc1_txt_sv/%d.m4s", "thumbs/%d.jpg"} {
+				for _, mode := range []string{"", "segtimelinenr_1/", "snr_7/"} {
+					for _, k := range []int64{1 << 32, 1 << 33, 3 << 32, 1 << 40} {
+						base := fmt.Sprintf("/livesim2/%stestpic_2s/"+rp+"?nowMS=100000", mode, 30)
+						u := fmt.Sprintf("/livesim2/%stestpic_2s/"+rp+"?nowMS=100000", mode, 30+k)
+						rep.Hit("C04.404")
+						rep.AddExecs(2)
+						if r0, r := vGet(srv, base), vGet(srv, u); r0.Code == 200 && r.Code == 200 {
+							rep.Violate("C04.404", "number-alias-200:"+strings.SplitN(rp, "/", 2)[0], fmt.Sprintf("%s: status 200 (the segment with number 30 is available at this instant, number 30+%d is not)", u, k), map[string]any{"url": u})
+						}
+					}
+				}
+			}
 			// every number below the start number (in particular startNumber - k x segments per loop)
 			// x representation kind x addressing x instants from stream start to far beyond the window
 			for _, as := range []struct {
